@@ -20,6 +20,7 @@ class Stats:
         self.unknown = 0
         self.shapes = set()
         self.by_result = {'sat': 0, 'unsat': 0, 'unknown': 0}
+        self.cross = {'checked': 0, 'agree': 0, 'other_unknown': 0, 'disagree': 0}
 
 
 STATS = Stats()
@@ -705,12 +706,56 @@ def solve(constraints, timeout_ms=20000, want_model=True, tactic=None) -> Result
         STATS.shapes.add(hash(s.sexpr()) if len(zs) < 50 else hash(tuple(map(str, zs[:5]))))
     except Exception:  # noqa: BLE001
         pass
+    if st in ('sat', 'unsat') and _crosscheck_due():
+        other = _cvc5_verdict(s)
+        STATS.cross['checked'] += 1
+        if other == st:
+            STATS.cross['agree'] += 1
+        elif other in ('sat', 'unsat'):
+            STATS.cross['disagree'] += 1
+            st = 'unknown'  # two solvers disagree: inconclusive, never a pass and never a violation
+        else:
+            STATS.cross['other_unknown'] += 1
     model = None
     if st == 'sat' and want_model:
         model = extract_model(s.model(), L)
     res = Result(st, model, dt, L)
     res.solver = s
     return res
+
+
+def _crosscheck_due() -> bool:
+    if os.environ.get('VERIF_CROSSCHECK', '1' if os.environ.get('VERIF_TIER') == 'thorough' else '0') != '1':
+        return False
+    # a sample: every 7th query with a definite answer, at most 30 per process
+    return STATS.queries % 7 == 0 and STATS.cross["checked"] < 30
+
+
+def _cvc5_verdict(zs) -> str:
+    """Second opinion of cvc5 (wheel, 1.4) on the SMT-LIB2 text of a z3 solver; 5 s limit."""
+    try:
+        import cvc5
+
+        txt = '(set-logic ALL)\n' + zs.sexpr() + '\n(check-sat)\n'
+        slv = cvc5.Solver()
+        slv.setOption('tlimit-per', '5000')
+        slv.setOption('strings-exp', 'true')
+        p = cvc5.InputParser(slv)
+        p.setStringInput(cvc5.InputLanguage.SMT_LIB_2_6, txt, 'q')
+        sm = p.getSymbolManager()
+        res = 'unknown'
+        while True:
+            cmd = p.nextCommand()
+            if cmd.isNull():
+                break
+            out = cmd.invoke(slv, sm).strip()
+            if out in ('sat', 'unsat', 'unknown'):
+                res = out
+            elif out.startswith('(error'):
+                return 'error'
+        return res
+    except Exception:  # noqa: BLE001
+        return 'error'
 
 
 def extract_model(m, L: Lowerer) -> dict:
